@@ -135,7 +135,7 @@ def unconstructible_names(wd):
     return json.loads(p.stdout.decode().strip().splitlines()[-1])
 
 
-def shard_pipeline(wd, k, types, plans, P, families=None):
+def shard_pipeline(wd, k, types, plans, P, families=None, ops=None):
     """GEN -> replay -> TV for one shard of types; returns dict(divergences, counts, stats)"""
     sd = os.path.join(wd, 'shard%02d' % k)
     os.makedirs(sd, exist_ok=True)
@@ -153,7 +153,7 @@ def shard_pipeline(wd, k, types, plans, P, families=None):
         f.write('====\n')
     with open(os.path.join(sd, 'G.cfg'), 'w') as f:
         f.write(GEN_CFG % dict(chks=','.join(P['chks']), families=','.join(q(x) for x in (families or P['families'])),
-                               maxpersym=P['maxpersym'], maxrare=P['maxrare'], planlen=P.get('planlen', 8), ops=','.join(q(x) for x in P['ops'])))
+                               maxpersym=P['maxpersym'], maxrare=P['maxrare'], planlen=P.get('planlen', 8), ops=','.join(q(x) for x in (ops or P['ops']))))
     t0 = time.time()
     g = tlc.run(os.path.join(sd, 'G.tla'), os.path.join(sd, 'G.cfg'), workers=1, timeout=3600, heap='2g', light=True)
     if not g['complete']:
@@ -265,12 +265,24 @@ def run_campaign(tier):
         unc = unconstructible_names(wd)
         plans = {t: type_plan(J, t, P, unc) for t in sorted(J['cm'])}
         plans = {t: p for t, p in plans.items() if p['sigma']}
+        # element classes WITHOUT element content (simple types, simple content, empty types): addressed as '=<element name>'
+        # with a small global alphabet; a checked one must refuse every child, an unchecked one accepts anything (C18)
+        glob_sigma = [x for x in ('pitch', 'words', 'duration') if x not in unc]
+        noncm = sorted(n for n in J['elemtype'] if J['elemtype'][n] not in J['cm'] and n not in unc)
+        if P.get('noncm_every', 1) > 1:
+            noncm = noncm[::P['noncm_every']]
+        for n in noncm:
+            plans['=' + n] = dict(sigma=glob_sigma, multi=[], rare=glob_sigma[:2], rem=glob_sigma[:2], remadds=1, depth=2, wordlen=1,
+                                  stride=1, cost=400, nofamilies=True)
         # work units: a type with all families, or -- for the heaviest types -- one unit per family group; balanced over
         # the shards by estimated cost, largest first
         groups = [['uniform'], ['cover', 'wordrem'], [f for f in P['families'] if f not in ('uniform', 'cover', 'wordrem')]]
-        total = sum(p['cost'] for p in plans.values())
+        total = sum(p['cost'] for p in plans.values() if not p.get('nofamilies'))
         units = []
         for t, p in plans.items():
+            if p.get('nofamilies'):
+                units.append((p['cost'], t, ('uniform', '-nodot')))     # shortcut names only exist for schema children
+                continue
             if p['cost'] > total / (2.0 * common.NCPU):
                 for g in groups:
                     g = [f for f in g if f in P['families']]
@@ -290,10 +302,11 @@ def run_campaign(tier):
         jobs = []
         for s_ in shards:
             for fams, ts in s_['byfam'].items():
-                jobs.append((sorted(ts), list(fams)))
+                jobs.append((sorted(ts), [f for f in fams if f != '-nodot'],
+                             ['add', 'remove', 'replace', 'tostring', 'tostring_ic'] if '-nodot' in fams else None))
         results = []
         with ThreadPoolExecutor(max_workers=common.NCPU) as ex:
-            futs = [ex.submit(shard_pipeline, wd, k, ts, plans, P, fams) for k, (ts, fams) in enumerate(jobs)]
+            futs = [ex.submit(shard_pipeline, wd, k, ts, plans, P, fams, ops) for k, (ts, fams, ops) in enumerate(jobs)]
             for f in futs:
                 results.append(f.result())
         counts = {}
